@@ -469,6 +469,14 @@ class MergeSortView(Table):
         self.key = key
         if presorted:
             self.tables = tables
+        elif key is None:
+            # N.B., a lexical sort follows the column order of the *output*
+            # table, which the inputs need not share, so lay the rows out as
+            # the output table first (cat), then sort
+            from petl.transform.basics import cat
+            self.tables = [sort(cat(*tables, missing=missing, header=header),
+                                reverse=reverse, buffersize=buffersize,
+                                tempdir=tempdir, cache=cache)]
         else:
             self.tables = [sort(t, key=key, reverse=reverse,
                                 buffersize=buffersize, tempdir=tempdir,
